@@ -23,6 +23,9 @@ CORPUS = [
     ("aarch64", "a64fx", ["--fixed"], ["smlal v1.2d, v2.2s, v3.2s", "sadalp v4.2d, v5.4s", "ldr q0, [x1, x2, lsl #4]"]),
     ("aarch64", "tx2", [], ["ldr d0, [x1, #16]!", "fadd d1, d0, d1", "str d1, [x2], #8", "subs x3, x3, #1", "b.ne .L1"]),
     ("aarch64", "tx2", ["-f"], ["ldp d0, d1, [x3]", "fmla v2.2d, v0.2d, v1.2d", "foo x1, [x2]", "add x3, x3, #16"]),
+    # kernels of 50 and more lines take the multi-process search: two of them (and one twice) in one process
+    ("x86", "zen2", [], ["addq $1, %%r%d" % (8 + i % 8) for i in range(52)] + ["addq %r8, %r9"]),
+    ("aarch64", "tx2", [], ["add x%d, x%d, #1" % (1 + i % 20, 1 + i % 20) for i in range(55)]),
 ]
 DRIVER = r'''
 import io, sys
@@ -79,6 +82,10 @@ n_hist, n_steps = (3, 14) if A.tier != "thorough" else (12, 30)
 for h in range(n_hist):
     rnd = random.Random(A.seed * 1000 + h)
     history = [rnd.randrange(len(CORPUS)) for _ in range(n_steps)]
+    # every history meets both large kernels, one of them twice (process-wide settings made by the multi-process search)
+    big = [i for i, c in enumerate(CORPUS) if len(c[3]) >= 50]
+    for pos, item in zip((2, n_steps // 2, n_steps - 2), (big[0], big[-1], big[0])):
+        history[pos] = item
     if h == 0:
         history = [0, 1, 0, 1, 3, 3, 6, 7, 6, 2, 5, 1, 8, 9][:n_steps]  # read-modify-write first, then the pure load; repeats
     for step, ci in enumerate(history):
